@@ -115,6 +115,10 @@ pub fn generate(g: &mut Gen, thorough: bool) {
             // `a,0` means rf = 0: not a sphere in this library (1/0); the table entries are
         } else {
             pair(g, "close", &format!("merc ellps={r}"), &format!("webmerc ellps={r}"), &[], &pts, "oracle-merc-sphere-is-webmerc");
+            // (on the antimeridian and beyond it, longitudes counted on, they are the same function still)
+            let far = vec![[std::f64::consts::PI, 0.3, 0.0, 0.0], [-std::f64::consts::PI, -0.3, 0.0, 0.0], [3.4, -0.5, 0.0, 0.0], [6.0, 0.2, 0.0, 0.0], [-3.3, 0.1, 0.0, 0.0], [g.rng.uniform(3.2, 6.2), g.rng.uniform(-1.2, 1.2), 0.0, 0.0]];
+            pair(g, "close", &format!("merc ellps={r}"), &format!("webmerc ellps={r}"), &[], &far, "oracle-merc-sphere-is-webmerc-beyond-the-antimeridian");
+            g.push(op_line("default", &[], &[], &format!("merc ellps={r}"), "apply", "F", &data_of(&far)), "model-merc-beyond-the-antimeridian", true);
         }
         let ts = *g.rng.pick(&[56.0, -56.0, 30.0, -30.0, 10.5, -75.0, 89.0]);
         let ellps = *g.rng.pick(&proj::ELLPS);
